@@ -285,7 +285,7 @@ def run_name_case(inp, ctx):
 
 
 # ---- user functions --------------------------------------------------------
-USER_NAMES = ('ADDONE', 'SHOUT', 'ADD.ONE')     # Excel has dotted names too
+USER_NAMES = ('ADDONE', 'SHOUT', 'ADD.ONE', 'TAG')  # Excel has dotted names too
 
 
 def _user_functions():
@@ -305,7 +305,11 @@ def _user_functions():
     @xl.validate_args
     def ADDONE2(number: T.XlNumber, step: T.XlNumber = 1) -> T.XlNumber:
         return number + step
-    return {'ADDONE': ADDONE, 'SHOUT': SHOUT, 'ADD.ONE': ADD_ONE,
+    @xl.validate_args
+    def TAG(value: T.XlNumber, scale: T.XlNumber = 1,
+            suffix: T.XlText = '') -> T.XlText:
+        return str(value * scale) + str(suffix)
+    return {'ADDONE': ADDONE, 'SHOUT': SHOUT, 'ADD.ONE': ADD_ONE, 'TAG': TAG,
             # registered under the NAME ADDONE by history step S: the same
             # name with another parameter list
             'ADDONE/2': ADDONE2}
@@ -405,6 +409,35 @@ def run_history_case(inp, ctx):
         _unregister_all()
 
 
+# keyword calls of a user function with optional parameters of two kinds:
+# (positional args, keyword args, expected text)
+TAG_CALLS = (
+    ((['str', '2'],), {'suffix': ['str', 'kg']}, 'text:2kg'),
+    ((['int', 2],), {'suffix': ['str', '007']}, 'text:2007'),
+    ((['int', 2],), {'suffix': ['int', 5]}, 'text:25'),
+    ((['int', 2], ['str', '3']), {'suffix': ['str', 'x']}, 'text:6x'),
+    ((['int', 2],), {'scale': ['str', '3']}, 'text:6'),
+    ((['int', 2],), {'scale': ['bool', True], 'suffix': ['str', 'y']},
+     'text:2y'),
+    ((), {'value': ['str', '4'], 'suffix': ['str', 'z']}, 'text:4z'),
+    ((['str', '2'], ['int', 1], ['str', 'kg']), {}, 'text:2kg'),
+)
+
+
+def run_kw_case(inp, ctx):
+    _unregister_all()
+    try:
+        funcs = _user_functions()
+        _register(inp['style'], 'TAG', funcs['TAG'])
+        args, kw, want = TAG_CALLS[inp['i']]
+        got = lib.observe(lib.FUNCTIONS['TAG'],
+                          *[fcall.mat(a) for a in args],
+                          **{k: fcall.mat(v) for k, v in kw.items()})
+        ctx.check(inp['key'], got, want, inp['tags'], dict(inp))
+    finally:
+        _unregister_all()
+
+
 def run_user_case(inp, ctx):
     """Coercion of a registered user function (direct and through a fresh
     evaluator created after the registration)."""
@@ -430,7 +463,7 @@ def run_user_case(inp, ctx):
 
 
 RUN = {'fn': run_fn_case, 'nn': run_nn_case, 'op': run_op_case,
-       'name': run_name_case, 'hist': run_history_case,
+       'name': run_name_case, 'hist': run_history_case, 'kw': run_kw_case,
        'user': run_user_case}
 
 
@@ -660,6 +693,11 @@ def gen_hist(shard, tier):
 
 def gen_user(shard, tier):
     style = shard['name']
+    for i in range(len(TAG_CALLS)):
+        yield {'g': 'kw', 'i': i, 'style': style,
+               'tags': ['user-function', 'fn:TAG', 'call:keyword',
+                        'style:' + style],
+               'key': 'C08/user/%s/TAG/kw=%d' % (style, i)}
     vals = NUM_VALUES + NUM_VALUES_MORE
     for x in vals:
         want = 'num:%s' % lib.fnum(float(x) + 1)
